@@ -182,6 +182,7 @@ Lemma dispatch_no_crash : crash_free_table = true -> alias_not_help = true ->
   exists pre r c, dispatch E i (a, s, d) = (OReply pre r, c).
 Proof.
   intros HT HA E i a s d Hh. unfold dispatch.
+  destruct (negb (str_eqb a IDENTREQUEST) && is_internal a); [eauto|].
   destruct (str_eqb a IDENTREQUEST) eqn:Ei.
   - destruct (find_handler ident_alias) as [h|] eqn:F; [|eauto].
     destruct (Nat.eqb (h_arity h) 3) eqn:Ar; [|eauto].
@@ -410,7 +411,7 @@ Definition success_reply_of (a : str) (s : option str) (r : msg) : Prop :=
   exists h, find_handler (alias a) = Some h /\
             fst (fst r) = h_reply h /\
             snd (fst r) = spec_rule (h_rule h) (if str_eqb a IDENTREQUEST then None else s) /\
-            (if str_eqb (alias a) ident_alias then h_reply h = IDENTREPLY
+            (if str_eqb a IDENTREQUEST then h_reply h = IDENTREPLY
              else assoc_s a request2reply = Some (h_reply h)).
 
 Definition reply_ok (E : env) (i : nat) (line : bytes) (r : msg) : Prop :=
@@ -433,7 +434,10 @@ Definition handlers_match_table : bool :=
 Definition is_error_name (n : str) : bool := existsb (str_eqb n) (map snd error_names).
 Definition names_closed : bool :=
   is_error_name decode_error_name && is_error_name generic_error_name
-  && is_error_name (error_name_of_class unhandled_error_class).
+  && is_error_name (error_name_of_class unhandled_error_class)
+  && is_error_name (error_name_of_class internal_error_class).
+(* the internal name the identification request is mapped to is itself guarded: no request action can be equal to it *)
+Definition alias_is_internal : bool := is_internal ident_alias.
 
 Lemma is_error_name_in : forall n, is_error_name n = true -> In n (map snd error_names).
 Proof.
@@ -444,12 +448,15 @@ Qed.
 Section Classify.
 Hypothesis HM : handlers_match_table = true.
 Hypothesis HN : names_closed = true.
+Hypothesis HI : alias_is_internal = true.
 
 Lemma names_closed_parts :
   In decode_error_name (map snd error_names) /\ In generic_error_name (map snd error_names) /\
-  In (error_name_of_class unhandled_error_class) (map snd error_names).
+  In (error_name_of_class unhandled_error_class) (map snd error_names) /\
+  In (error_name_of_class internal_error_class) (map snd error_names).
 Proof.
-  unfold names_closed in HN. apply andb_true_iff in HN. destruct HN as [H12 H3].
+  unfold names_closed in HN. apply andb_true_iff in HN. destruct HN as [H123 H4].
+  apply andb_true_iff in H123. destruct H123 as [H12 H3].
   apply andb_true_iff in H12. destruct H12 as [H1 H2].
   repeat split; apply is_error_name_in; assumption.
 Qed.
@@ -471,7 +478,9 @@ Lemma dispatch_classified : forall E i a s d pre r c,
   error_reply_of E i a s r \/ success_reply_of a s r.
 Proof.
   intros E i a s d pre r c H. unfold dispatch in H.
-  destruct names_closed_parts as [_ [Hg Hu]].
+  destruct names_closed_parts as [_ [Hg [Hu Hint]]].
+  destruct (negb (str_eqb a IDENTREQUEST) && is_internal a) eqn:GI.
+  { inversion H; subst. left. apply err_reply_is_error. exact Hint. }
   assert (Hal : (let '(a', s', d') := if str_eqb a IDENTREQUEST then (ident_alias, None, None) else (a, s, d) in
                  a' = alias a /\ s' = (if str_eqb a IDENTREQUEST then None else s))).
   { unfold alias. destruct (str_eqb a IDENTREQUEST); split; reflexivity. }
@@ -485,10 +494,10 @@ Proof.
         pose proof (find_handler_some _ _ F) as [Hin Hn].
         unfold handlers_match_table in HM. rewrite forallb_forall in HM. specialize (HM _ Hin).
         rewrite Ar, Ru in HM. simpl in HM. rewrite Hn in HM.
-        destruct (str_eqb (alias a) ident_alias) eqn:Eal.
-        -- apply str_eqb_eq. exact HM.
-        -- unfold alias in *. destruct (str_eqb a IDENTREQUEST) eqn:Ei.
-           ++ rewrite str_eqb_refl in Eal. discriminate.
+        unfold alias in *. destruct (str_eqb a IDENTREQUEST) eqn:Ei.
+        -- rewrite str_eqb_refl in HM. apply str_eqb_eq. exact HM.
+        -- simpl in GI. destruct (str_eqb a ident_alias) eqn:Eal.
+           ++ apply str_eqb_eq in Eal. subst a. unfold alias_is_internal in HI. rewrite HI in GI. discriminate.
            ++ destruct (assoc_s a request2reply) as [x|]; [|discriminate].
               apply str_eqb_eq in HM. subst. reflexivity.
       * inversion H; subst. left. apply err_reply_is_error. apply index_name_in.
@@ -560,3 +569,9 @@ Proof.
   - inversion H; subst. reflexivity.
   - destruct (e_json E (x0 :: l0)); [|discriminate]. inversion H; subst. reflexivity.
 Qed.
+
+(* ------------------------------------------------------------------ internal handler names are no requests *)
+Lemma internal_rejected : forall E i a s d,
+  str_eqb a IDENTREQUEST = false -> is_internal a = true ->
+  dispatch E i (a, s, d) = (OReply [] (err_reply E i a s (error_name_of_class internal_error_class)), None).
+Proof. intros E i a s d H1 H2. unfold dispatch. rewrite H1, H2. reflexivity. Qed.
